@@ -158,6 +158,14 @@ Theorem C11_dispatch_no_overflow : forall (n dim_max modulus : Z) (vs : list Z) 
 Proof. exact dispatch_no_overflow. Qed.
 Print Assumptions C11_dispatch_no_overflow.
 
+(* the dimension handed to the encodings and to the engine (dimension_t = int8_t) never overflows: dim_max + 2 <= 127; it is the
+   requested one whenever that is at most n - 2 and 125 *)
+Theorem C11_clamped_dimension_fits_int8 : forall n dim_max : Z,
+  clamp_dim n dim_max + 2 <= 127 /\ clamp_dim n dim_max <= dim_max /\
+  (dim_max <= n - 2 -> dim_max <= 125 -> clamp_dim n dim_max = dim_max).
+Proof. exact clamp_dim_fits. Qed.
+Print Assumptions C11_clamped_dimension_fits_int8.
+
 Example C11_dispatch_nonvacuous :
   dispatch 40 9 3 = B128 /\ dispatch 40 8 3 = B64 /\ dispatch 40 20 2 = C128 /\ dispatch 16 14 2 = B64 /\ dispatch 16 14 3 = B128.
 Proof. vm_compute. repeat split. Qed.
